@@ -1,8 +1,34 @@
 /-
-C13 — sample requests used by the emitted tests
-(gapic/utils/uri_sample.py: sample_names, sample_from_path_fields, sample_from_path_template;
-gapic/schema/wrappers.py: HttpRule.sample_request, RoutingParameter.sample_request).
-A path template (the part after `=` of a variable, or `*` when absent) is a list of tokens.
+C13 — the logic the emitted tests depend on: sample requests and mock values.
+
+Part 1 (sample names / templates): gapic/utils/uri_sample.py: sample_names, sample_from_path_fields,
+  sample_from_path_template; a path template (the part after `=` of a variable, or `*` when absent) is a
+  list of tokens.
+Part 2 (mock values in their original Python type): gapic/schema/wrappers.py: Field.type (proto type number →
+  Python type), Field.primitive_mock (incl. the `type_url` special case and the `suffix`),
+  Field.mock_value_original_type (its `visited_messages` set is threaded through the fields in declaration
+  order exactly as the dict comprehension does; map → `{}`; google.protobuf.Any → the packed Duration;
+  enum → first non-zero number else the first; repeated primitive → two suffixed items), Field.merged_mock_value.
+Part 3 (sample requests of an http rule): HttpRule.path_fields (reading of `{name}` / `{name=template}` in a
+  URI), HttpRule.sample_request (string variable → instantiated template, the name generator advances only
+  for string variables; any other kind → mock_value_original_type), MixinHttpRule.sample_request,
+  RoutingParameter.sample_request = uri_sample.sample_from_path_template (the brace-stripping slice logic,
+  with its ValueError branches), uri_sample.add_field.
+Part 4 (mock values as emitted Python expressions): Field.mock_value / inner_mock / primitive_mock_as_str as an
+  expression TREE (constructor call / enum member / map literal / list / literal), with the `visited_fields`
+  cut of the first-field chain and the fresh recursive `mock_value` of a map's key and value fields.
+
+NOT modelled (stated, not hidden):
+  * Python's `str(float)` / `repr`: a float mock is the exact decimal `n * 10^-d` (`PyVal.dec n d`); the harness
+    compares the real float with that decimal (relative 1e-12).  The TEXT of `mock_value` is compared after
+    parsing it with Python's `ast` into the same tree shape (idents are kept as text).
+  * `add_field` is modelled at the level "dotted path ↦ leaf value" (last assignment wins); two variables of one
+    rule where one path is a proper dotted prefix of the other are outside the model (`sampleRequest` is only
+    compared on prefix-free variable sets; the Python either raises AttributeError or silently overwrites).
+  * `path_template._VARIABLE_RE` is api-core's; `parseUri` is a hand reading of it for brace-balanced URIs
+    (T2 against the real `path_fields` on every generated URI); positional `*`/`**` outside braces are literals
+    here because `path_fields` skips them.
+  * what the test templates DO with these values (~6k lines of Jinja): decided by execution only.
 -/
 namespace GapicModel.Model.Mock
 
@@ -52,5 +78,417 @@ inductive Matches : List Tok → Str → Prop where
   | lit (cs r s) : Matches r s → Matches (.lit cs :: r) (cs ++ s)
   | star (v r s) : v ≠ [] → '/' ∉ v → Matches r s → Matches (.star :: r) (v ++ s)
   | dstar (v r s) : v ≠ [] → Matches r s → Matches (.dstar :: r) (v ++ s)
+
+
+/-! ## Part 2 — mock values in their original Python type -/
+
+inductive PyT where
+  | bool | str | bytes | int | float
+deriving Repr, DecidableEq
+
+/-- `Field.type` for a non-message, non-enum field: FieldDescriptorProto.Type number → Python type
+(10 = group, 11 = message, 14 = enum are not primitives; anything else raises TypeError) -/
+def pyTOfProtoType : Nat → Option PyT
+  | 1 => some .float | 2 => some .float
+  | 3 => some .int | 4 => some .int | 5 => some .int | 6 => some .int | 7 => some .int
+  | 13 => some .int | 15 => some .int | 16 => some .int | 17 => some .int | 18 => some .int
+  | 8 => some .bool
+  | 9 => some .str
+  | 12 => some .bytes
+  | _ => none
+
+/-- Python values the mocks are made of.  One inductive (dict and list are `cons` chains) so that equality is
+decidable.  `dec n d` is the float `n * 10^(-d)` kept exact; `bytes` holds the code points (< 256). -/
+inductive PyVal where
+  | none
+  | bool (b : Bool)
+  | str (s : Str)
+  | bytes (s : Str)
+  | int (i : Int)
+  | dec (n d : Nat)
+  | dnil
+  | dcons (k : Str) (v : PyVal) (rest : PyVal)
+  | lnil
+  | lcons (v : PyVal) (rest : PyVal)
+deriving Repr, DecidableEq
+
+/-- `sum([ord(i) for i in name])` -/
+def ordSum : Str → Nat
+  | [] => 0
+  | c :: r => c.toNat + ordSum r
+
+/-- `f"{suffix}" if suffix else ""` -/
+def suffixStr (k : Nat) : Str := if k = 0 then [] else decDigits k
+
+def valueSuffix : Str := ['_', 'v', 'a', 'l', 'u', 'e']
+def blobSuffix : Str := ['_', 'b', 'l', 'o', 'b']
+def typeUrlName : Str := "type_url".toList
+/-- `"type.googleapis.com/google.protobuf.Empty"` (head written apart so that non-emptiness is syntactic) -/
+def typeUrlMock : Str := 't' :: "ype.googleapis.com/google.protobuf.Empty".toList
+
+/-- `Field.primitive_mock(suffix=k)` for a field of Python type `t` called `name` -/
+def primitiveMock (t : PyT) (name : Str) (k : Nat) : PyVal :=
+  match t with
+  | .bool => .bool true
+  | .str => if name = typeUrlName then .str typeUrlMock else .str (name ++ valueSuffix ++ suffixStr k)
+  | .bytes => .bytes (name ++ blobSuffix ++ suffixStr k)
+  | .int => .int (Int.ofNat (ordSum name + k))
+  | .float => .dec (ordSum name + k) (decDigits (ordSum name + k)).length
+
+/-- Python truthiness of the values that occur -/
+def truthy : PyVal → Bool
+  | .none => false
+  | .bool b => b
+  | .str s => s ≠ []
+  | .bytes s => s ≠ []
+  | .int i => i ≠ 0
+  | .dec n _ => n ≠ 0
+  | .dnil => false
+  | .dcons _ _ _ => true
+  | .lnil => false
+  | .lcons _ _ => true
+
+/-- `x or None` -/
+def orNone (v : PyVal) : PyVal := if truthy v then v else .none
+
+inductive FType where
+  | prim (t : PyT)
+  | enum (ident : Str) (vals : List (Str × Int))
+  | msg (id : Nat)                 -- index into the environment (one entry per MessageType object)
+deriving Repr, DecidableEq
+
+/-- `fid` is the identity of the Python `Field` OBJECT (`Field.__hash__` is `id(self)`: `visited_fields` of
+`mock_value` is a set of objects, and the loader holds several copies of a recursive message) -/
+structure Field where
+  name : Str
+  fid : Nat
+  ty : FType
+  repeated : Bool
+deriving Repr, DecidableEq
+
+/-- one `MessageType` OBJECT of the loaded schema; `cls` identifies the proto message it describes
+(`MessageType` equality is by value: `visited_messages` of `mock_value_original_type` cannot tell copies apart) -/
+structure MsgDef where
+  ident : Str
+  cls : Nat
+  fields : List Field
+  isMap : Bool                     -- `options.map_entry`
+  isAny : Bool                     -- google.protobuf.Any
+deriving Repr, DecidableEq
+
+abbrev Env := List MsgDef
+
+inductive MockErr where
+  | fuel           -- the recursion did not end within the fuel (Python: RecursionError)
+  | emptyEnum      -- `values[0]` on an enum without values (IndexError; protoc rejects such enums)
+  | dangling       -- a message index outside the environment (not a Python behaviour: ill-formed input)
+  | noKeyValue     -- a map entry without `key`/`value` (KeyError; protoc never produces it)
+deriving Repr, DecidableEq
+
+def wrapRepeated (rep : Bool) (v : PyVal) : PyVal := if rep then .lcons v .lnil else v
+
+/-- the packed Duration used for google.protobuf.Any -/
+def anyDict : PyVal :=
+  .dcons typeUrlName (.str "type.googleapis.com/google.protobuf.Duration".toList)
+    (.dcons "value".toList (.bytes [Char.ofNat 8, Char.ofNat 12, Char.ofNat 16, Char.ofNat 219, Char.ofNat 7]) .dnil)
+
+/-- `next((v for v in values if v.number), values[0]).number` (the default is evaluated eagerly) -/
+def enumMockNumber (vals : List (Str × Int)) : Option Int :=
+  match vals with
+  | [] => none
+  | v0 :: _ => some ((vals.find? (fun v => v.2 ≠ 0)).getD v0).2
+
+/-- the dict comprehension over `field.message.fields.values()`, threading the visited set -/
+def foldFields (rec : List Nat → Field → Except MockErr (PyVal × List Nat)) :
+    List Nat → List Field → Except MockErr (PyVal × List Nat)
+  | vis, [] => .ok (.dnil, vis)
+  | vis, f :: r =>
+    match rec vis f with
+    | .error e => .error e
+    | .ok (v, vis1) =>
+      match foldFields rec vis1 r with
+      | .error e => .error e
+      | .ok (d, vis2) => .ok (.dcons f.name v d, vis2)
+
+/-- `recursive_mock_original_type(field)` with `visited_messages = vis`; returns the value and the new set -/
+def mockOrigF : Nat → Env → List Nat → Field → Except MockErr (PyVal × List Nat)
+  | 0, _, _, _ => .error .fuel
+  | fuel + 1, env, vis, f =>
+    match f.ty with
+    | .msg id =>
+      match env[id]? with
+      | none => .error .dangling
+      | some m =>
+        if m.cls ∈ vis then .ok (.dnil, vis)
+        else if f.repeated && m.isMap then .ok (.dnil, m.cls :: vis)
+        else if m.isAny then .ok (wrapRepeated f.repeated anyDict, m.cls :: vis)
+        else
+          match foldFields (mockOrigF fuel env) (m.cls :: vis) m.fields with
+          | .error e => .error e
+          | .ok (d, vis2) => .ok (wrapRepeated f.repeated d, vis2)
+    | .enum _ vals =>
+      match enumMockNumber vals with
+      | none => .error .emptyEnum
+      | some n => .ok (wrapRepeated f.repeated (.int n), vis)
+    | .prim t =>
+      if f.repeated then
+        .ok (.lcons (orNone (primitiveMock t f.name 1)) (.lcons (orNone (primitiveMock t f.name 2)) .lnil), vis)
+      else .ok (orNone (primitiveMock t f.name 0), vis)
+
+/-- `Field.mock_value_original_type` -/
+def mockOrig (env : Env) (f : Field) : Except MockErr PyVal :=
+  match mockOrigF (env.length + 1) env [] f with
+  | .error e => .error e
+  | .ok (v, _) => .ok v
+
+def isDict : PyVal → Bool
+  | .dnil => true
+  | .dcons _ _ _ => true
+  | _ => false
+
+/-- `d[k] = v` on a dict chain (existing key keeps its position) -/
+def dictSet (k : Str) (v : PyVal) : PyVal → PyVal
+  | .dcons k' v' r => if k' = k then .dcons k' v r else .dcons k' v' (dictSet k v r)
+  | _ => .dcons k v .dnil
+
+/-- `d.update(other)` -/
+def dictUpdate (d : PyVal) : PyVal → PyVal
+  | .dcons k v r => dictUpdate (dictSet k v d) r
+  | _ => d
+
+/-- `Field.merged_mock_value(other_mock)` given the field's mock -/
+def mergedMock (mock other : PyVal) : PyVal :=
+  if isDict mock && isDict other then dictUpdate mock other else mock
+
+/-- what the generated type's constructor is handed — `None` leaves a singular field unset; an already visited
+message yields `{}` even for a repeated field (proto-plus reads an empty mapping as an empty sequence: validated
+on the real classes by the harness); `strict = true` refuses that last case -/
+def primFits : PyT → PyVal → Bool
+  | .bool, .bool _ => true
+  | .str, .str _ => true
+  | .bytes, .bytes _ => true
+  | .int, .int _ => true
+  | .float, .dec _ _ => true
+  | _, _ => false
+
+def findField (fs : List Field) (k : Str) : Option Field := fs.find? (fun f => f.name = k)
+
+mutual
+/-- a singular value of type `ty` -/
+def fitsOne (strict : Bool) (env : Env) : PyVal → FType → Bool
+  | .none, _ => true
+  | .dnil, .msg _ => true
+  | .dcons k v r, .msg id =>
+    match env[id]? with
+    | none => false
+    | some m => if m.isAny then true else fitsDict strict env (.dcons k v r) m.fields
+  | .int i, .enum _ vals => vals.any (fun v => v.2 = i)
+  | v, .prim t => primFits t v
+  | _, _ => false
+/-- every entry of the dict chain sets a declared field to a fitting value -/
+def fitsDict (strict : Bool) (env : Env) : PyVal → List Field → Bool
+  | .dnil, _ => true
+  | .dcons k v r, fs =>
+    (match findField fs k with
+     | none => false
+     | some f => fits strict env v f.ty f.repeated) && fitsDict strict env r fs
+  | _, _ => false
+/-- every element of the list chain fits (and is not `None`) -/
+def fitsList (strict : Bool) (env : Env) : PyVal → FType → Bool
+  | .lnil, _ => true
+  | .lcons v r, ty => (v != .none) && fitsOne strict env v ty && fitsList strict env r ty
+  | _, _ => false
+/-- a value for a field of type `ty`, repeated or not -/
+def fits (strict : Bool) (env : Env) : PyVal → FType → Bool → Bool
+  | v, ty, false => fitsOne strict env v ty
+  | .dnil, .msg _, true => !strict
+  | v, ty, true => fitsList strict env v ty
+end
+
+/-! ## Part 3 — sample requests of an http rule -/
+
+inductive Piece where
+  | lit (s : Str)
+  | var (path : Str) (tmpl : Option Str)      -- `{path}` / `{path=tmpl}`
+deriving Repr, DecidableEq
+
+def spanWhile (p : Char → Bool) : Str → Str × Str
+  | [] => ([], [])
+  | c :: r => if p c then let s := spanWhile p r; (c :: s.1, s.2) else ([], c :: r)
+
+def flushLit (acc : Str) : List Piece := if acc = [] then [] else [.lit acc.reverse]
+
+/-- the reading `path_template._VARIABLE_RE` makes of a URI with balanced braces and non-empty names; a `{`
+that does not open a well-formed variable stays literal text (fuel = length + 1) -/
+def parseUriF : Nat → Str → Str → List Piece
+  | 0, acc, _ => flushLit acc
+  | _ + 1, acc, [] => flushLit acc
+  | f + 1, acc, '{' :: r =>
+    let nm := spanWhile (fun c => c != '=' && c != '}' && c != '/') r
+    match nm.1, nm.2 with
+    | _ :: _, '}' :: r2 => flushLit acc ++ .var nm.1 none :: parseUriF f [] r2
+    | _ :: _, '=' :: r2 =>
+      let tm := spanWhile (fun c => c != '}') r2
+      match tm.1, tm.2 with
+      | _ :: _, '}' :: r4 => flushLit acc ++ .var nm.1 (some tm.1) :: parseUriF f [] r4
+      | _, _ => parseUriF f ('{' :: acc) r
+    | _, _ => parseUriF f ('{' :: acc) r
+  | f + 1, acc, c :: r => parseUriF f (c :: acc) r
+
+def parseUri (uri : Str) : List Piece := parseUriF (uri.length + 1) [] uri
+
+/-- one path variable as `HttpRule.sample_request` sees it: `isStr` = the field is a singular-or-repeated
+`str` primitive; `other` = the field's `mock_value_original_type` (used when it is not) -/
+structure PVar where
+  path : Str
+  tmpl : Option Str
+  isStr : Bool
+  other : PyVal
+deriving Repr, DecidableEq
+
+/-- `template or "*"`, tokenised -/
+def tmplToks : Option Str → List Tok
+  | none => [.star]
+  | some [] => [.star]
+  | some t => tokenize t.length [] t
+
+/-- the assignments `add_field(request, path, sample_value)` in order, generator at count `k` -/
+def sampleRequest : Nat → List PVar → List (Str × PyVal)
+  | _, [] => []
+  | k, v :: r =>
+    if v.isStr then
+      let s := sample k (tmplToks v.tmpl)
+      (v.path, .str s.1) :: sampleRequest s.2.1 r
+    else (v.path, v.other) :: sampleRequest k r
+
+/-- the leaf finally stored at `p` (the last assignment wins) -/
+def getLast (p : Str) : List (Str × PyVal) → Option PyVal
+  | [] => none
+  | (q, v) :: r =>
+    match getLast p r with
+    | some x => some x
+    | none => if q = p then some v else none
+
+/-- `MixinHttpRule.sample_request`: every variable as a string, plus `req[body] = {}` for a named body -/
+def mixinSampleRequest (vars : List (Str × Option Str)) (body : Option Str) : List (Str × PyVal) :=
+  sampleRequest 0 (vars.map fun v => ⟨v.1, v.2, true, .none⟩) ++
+    (match body with
+     | none => []
+     | some b => if b = [] || b = ['*'] then [] else [(b, .dnil)])
+
+def strOf : Option PyVal → Option Str
+  | some (.str s) => some s
+  | _ => none
+
+/-- the URL obtained by writing the request's values into the rule -/
+def fill (req : Str → Option Str) : List Piece → Option Str
+  | [] => some []
+  | .lit s :: r => (fill req r).map (s ++ ·)
+  | .var p _ :: r =>
+    match req p, fill req r with
+    | some v, some u => some (v ++ u)
+    | _, _ => none
+
+/-- `url` instantiates the rule: literals verbatim, every variable by a text matching its own template -/
+inductive UrlMatches : List Piece → Str → Prop where
+  | nil : UrlMatches [] []
+  | lit (cs r s) : UrlMatches r s → UrlMatches (.lit cs :: r) (cs ++ s)
+  | var (p t v r s) : Matches (tmplToks t) v → UrlMatches r s → UrlMatches (.var p t :: r) (v ++ s)
+
+def pieceVars : List Piece → List (Str × Option Str)
+  | [] => []
+  | .lit _ :: r => pieceVars r
+  | .var p t :: r => (p, t) :: pieceVars r
+
+/-! ### `uri_sample.sample_from_path_template` (RoutingParameter.sample_request) -/
+
+def indexOf (c : Char) : Str → Option Nat
+  | [] => none
+  | d :: r => if d = c then some 0 else (indexOf c r).map (· + 1)
+
+/-- the template with the braces and name of its first `{name=…}` removed; `none` = Python raises ValueError
+(`}` missing, or no `=` between the first `{` and the first `}`) -/
+def stripNamed (t : Str) : Option Str :=
+  match indexOf '{' t with
+  | none => some t
+  | some i =>
+    match indexOf '}' t with
+    | none => none
+    | some j =>
+      let seg := (t.drop i).take (j + 1 - i)
+      match indexOf '=' seg with
+      | none => none
+      | some e =>
+        let inner := (seg.take (seg.length - 1)).drop (e + 1)
+        some (t.take i ++ inner ++ t.drop (j + 1))
+
+/-- the sample value of a routing parameter -/
+def routingSample (t : Str) : Option Str :=
+  (stripNamed t).map fun s => (sample 0 (tmplToks (some s))).1
+
+/-! ## Part 4 — `Field.mock_value` as an expression tree -/
+
+inductive MockExpr where
+  | none
+  | lit (v : PyVal)
+  | enumMember (ident name : Str)
+  | ctor (ident sub : Str) (arg : MockExpr)      -- `Ident(sub=arg)`
+  | mapLit (k v : MockExpr)                       -- `{k: v}`
+  | list1 (e : MockExpr)                          -- `[e]`
+deriving Repr, DecidableEq
+
+def wrapList (rep : Bool) (e : MockExpr) : MockExpr := if rep then .list1 e else e
+
+def isMapField (env : Env) (f : Field) : Bool :=
+  f.repeated && (match f.ty with
+    | .msg id => (match env[id]? with | some m => m.isMap | none => false)
+    | _ => false)
+
+/-- `values[:2][-1].name` -/
+def enumMockName (vals : List (Str × Int)) : Option Str :=
+  match vals with
+  | [] => none
+  | [v] => some v.1
+  | _ :: v :: _ => some v.1
+
+/-- the `while stack:` loop of `mock_value` from `f` on, `vis` = `visited_fields`, `rec` = the (cached-property)
+`mock_value` of another field, used for the key and value of a map -/
+def chainF (rec : Field → Except MockErr MockExpr) (env : Env) : Nat → List Field → Field → Except MockErr MockExpr
+  | 0, _, _ => .error .fuel
+  | c + 1, vis, f =>
+    match f.ty with
+    | .prim t => .ok (wrapList f.repeated (.lit (primitiveMock t f.name 0)))
+    | .enum ident vals =>
+      match enumMockName vals with
+      | none => .error .emptyEnum
+      | some n => .ok (wrapList f.repeated (.enumMember ident n))
+    | .msg id =>
+      match env[id]? with
+      | none => .error .dangling
+      | some m =>
+        if f.repeated && m.isMap then
+          match findField m.fields "key".toList, findField m.fields "value".toList with
+          | some kf, some vf =>
+            match rec kf, rec vf with
+            | .ok k, .ok v => .ok (.mapLit k v)
+            | .error e, _ => .error e
+            | _, .error e => .error e
+          | _, _ => .error .noKeyValue
+        else
+          match m.fields with
+          | [] => .ok (wrapList f.repeated .none)
+          | sub :: _ =>
+            if f ∈ vis then .ok (wrapList f.repeated .none)
+            else
+              match chainF rec env c (f :: vis) sub with
+              | .error e => .error e
+              | .ok a => .ok (wrapList f.repeated (.ctor m.ident sub.name a))
+
+def totalFields (env : Env) : Nat := (env.map fun m => m.fields.length).sum
+
+/-- `Field.mock_value`; `d` bounds the nesting of map values (Python: the interpreter's recursion limit) -/
+def mockValueF : Nat → Env → Field → Except MockErr MockExpr
+  | 0, _, _ => .error .fuel
+  | d + 1, env, f => chainF (mockValueF d env) env (totalFields env + 2) [] f
 
 end GapicModel.Model.Mock
